@@ -1681,6 +1681,46 @@ def lib_decrypt(ctx, key, ident, ct, cap):
     return rc, res, ol.value
 
 
+def _kem_retry_case(ctx, M, key, de, ident, ib, rng):
+    """A first r whose one-byte K is zero forces the 'K == 0, draw r again' step of the encapsulation."""
+    lib = ctx.lib
+    Q = R.g1_add(R.g1_mul(R.H1(ident, R.HID_ENC), R.P1), M.ppube)
+    r1 = rng.randrange(1, N - 10000)
+    C, w = R.g1_mul(r1, Q), R.f12_pow(M.g, r1)
+    for _ in range(8000):
+        if R.kdf(R.g1_bytes(C)[1:] + R.f12_to_bytes(w) + ident, 1) == b'\0':
+            break
+        r1 += 1
+        C, w = R.g1_add(C, Q), R.f12_mul(w, M.g)
+    else:
+        ctx.stat('info_no_zero_key_scalar_found')
+        return
+    while True:
+        r2 = pick_scalar(rng, N - 2)
+        k_model, c_model = R.kem_encap(M.ppube, ident, r2, 1, g=M.g)
+        if k_model != b'\0':
+            break
+    kb, Cb = ctx.buf(1), ctx.buf(96)
+    push_entropy(ctx, LB(r1) + LB(r2))
+    ctx.begin(['kem-retry', hx(r1), hx(r2)])
+    rc = lib.sm9_kem_encrypt(M.buf, ib, len(ident), 1, kb, Cb)
+    cl = dec_g1(Cb.raw())
+    d = {'ke': hx(M.ke), 'id': ident[:48].hex(), 'idlen': len(ident), 'r1': hx(r1), 'r2': hx(r2), 'klen': 1}
+    if rc == 1 and kb.raw() == k_model and cl == c_model:
+        ctx.ok()
+    else:
+        kd = R.kem_decap(de, ident, cl, 1) if (rc == 1 and cl is not None) else None
+        chk(ctx, kd is not None and kb.raw() == kd, 'kem_encrypt:retry-after-zero-key', ret=rc, K=kb.raw().hex(),
+            K_from_C=kd.hex() if kd else None, C_is_r1r2Q=(cl == R.g1_mul(r1 * r2 % N, Q)), **d)
+    kb2 = ctx.buf(1)
+    rc2 = lib.sm9_kem_decrypt(key, ib, len(ident), Cb, 1, kb2)
+    chk(ctx, rc == 1 and rc2 == 1 and kb2.raw() == kb.raw(), 'kem_encrypt:retry-after-zero-key', ret=[rc, rc2], K=kb.raw().hex(),
+        K_decapsulated=kb2.raw().hex(), **d)
+    ctx.nontrivial('kem-retry', M.ke, ident, r1, r2)
+    for x in (kb, Cb, kb2):
+        x.free()
+
+
 def u_enc(ctx, u):
     lib, rng, L = ctx.lib, ctx.rng, ctx.L
     ke = {'1': 1, '2': 2, 'N-1': N - 1, 'N-2': N - 2}.get(u['ke']) or rng.randrange(1, N)
@@ -1752,9 +1792,11 @@ def u_enc(ctx, u):
             k_model, c_model = R.kem_encap(M.ppube, ident, r, klen, g=M.g)
             cl = dec_g1(C.raw())
             if not (rc == 1 and kb.raw() == k_model and cl == c_model):
+                retried = not any(k_model)       # an all-zero K makes the algorithm draw a new r
                 k_model = R.kem_decap(de, ident, cl, klen) if (rc == 1 and cl is not None) else None
-                chk(ctx, k_model is not None and kb.raw() == k_model, 'kem_encrypt:key-invalid-per-model', ret=rc, klen=klen,
-                    r=hx(r), ke=hx(ke), id=ident[:48].hex())
+                chk(ctx, k_model is not None and kb.raw() == k_model,
+                    'kem_encrypt:retry-after-zero-key' if retried else 'kem_encrypt:key-invalid-per-model', ret=rc, klen=klen,
+                    r=hx(r), ke=hx(ke), id=ident[:48].hex(), K=kb.raw().hex(), K_from_C=k_model.hex() if k_model else None)
             else:
                 ctx.ok()
             kb2 = ctx.buf(klen)
@@ -1763,6 +1805,8 @@ def u_enc(ctx, u):
             ctx.nontrivial('kem', ke, ident, r, klen)
             for x in (kb, C, kb2):
                 x.free()
+        if ii == 0:
+            _kem_retry_case(ctx, M, key, de, ident, ib, rng)
         for n in (0, 1, 32, 255, rng.randint(2, 254)):
             msg = rng.randbytes(n)
             r = pick_scalar(rng, N - 2)
@@ -1817,16 +1861,61 @@ _EXCH_RA_CONST = 0x5879DD1D51E175946F23B1B41E93BA31C584AE59A426EC1046A4D03B06C8
 _EXCH_RB_CONST = 0x018B98C44BEF9F8537FB7D071B2C928B3BC65BD3D69E1EEE213564905634FE
 
 
+def _exch_retry_case(ctx, M, src, rng):
+    """One-byte session key that comes out zero for the responder's first rB: the library then draws again
+    (its own addition to the protocol); both sides must still end with the same key."""
+    lib = ctx.lib
+    idB = rand_ident(rng, rng.randint(1, 40))
+    keyB, deB = extract_enc(ctx, M, idB, R.HID_EXCH)
+    ib = ctx.inbuf(idB)
+    RA, RB, rA = ctx.buf(96), ctx.buf(96), ctx.buf(32)
+    if lib.sm9_exch_step_1A(M.buf, ib, len(idB), RA, rA) != 1:
+        return
+    pRA = dec_g1(RA.raw())
+    rb1 = _EXCH_RB_CONST if src == 'test-vector-constant' else rng.randrange(1, N - 1)
+    g1 = R.pairing(pRA, deB)
+    b1, b2, b3 = R.f12_to_bytes(g1), R.f12_to_bytes(R.f12_pow(M.g, rb1)), R.f12_to_bytes(R.f12_pow(g1, rb1))
+    base = rng.randbytes(rng.randint(0, 20))
+    idA = None
+    for c in range(6000):
+        cand = base + c.to_bytes(2, 'big')
+        if cand == idB:
+            continue
+        pRB = R.exch_R(M.ppube, cand, rb1)
+        if R.kdf(cand + idB + R.g1_bytes(pRA)[1:] + R.g1_bytes(pRB)[1:] + b1 + b2 + b3, 1) == b'\0':
+            idA = cand
+            break
+    if idA is None:
+        ctx.stat('info_no_zero_session_key_found')
+        return
+    keyA, deA = extract_enc(ctx, M, idA, R.HID_EXCH)
+    ia = ctx.inbuf(idA)
+    skA, skB = ctx.buf(1), ctx.buf(1)
+    if src != 'test-vector-constant':
+        push_entropy(ctx, LB(rb1) + LB(rng.randrange(1, N - 1)))
+    d = {'ke': hx(M.ke), 'idA': idA.hex(), 'idB': idB.hex(), 'klen': 1, 'rB_first': hx(rb1), 'rA': hx(UL(rA.raw()))}
+    ctx.begin(['exch-retry', d])
+    r2 = lib.sm9_exch_step_1B(M.buf, ia, len(idA), ib, len(idB), keyB, RA, RB, skB, 1)
+    ctx.begin(['exch-retry-2A', d])
+    r3 = lib.sm9_exch_step_2A(M.buf, ia, len(idA), ib, len(idB), keyA, rA, RA, RB, skA, 1)
+    chk(ctx, r2 == 1 and r3 == 1 and skA.raw() == skB.raw(), 'exch:retry-after-zero-key:keys-differ', rets=[r2, r3],
+        skA=skA.raw().hex(), skB=skB.raw().hex(), **d)
+    ctx.nontrivial('exch-retry', M.ke, idA, idB, rb1)
+    for x in (keyA, keyB, ia, ib, RA, RB, rA, skA, skB):
+        x.free()
+
+
 def u_exch(ctx, u):
     lib, rng, L = ctx.lib, ctx.rng, ctx.L
     M = EncMaster(ctx, rng.randrange(1, N))
     seen_rA = set()
+    last_src = None
     for it in range(u['n']):
         idA = rand_ident(rng, rng.choice([1, 5, 64, rng.randint(1, 8191)]))
         idB = rand_ident(rng, rng.choice([1, 3, 65, rng.randint(1, 8191)]))
         if idA == idB:
             continue
-        klen = rng.choice([1, 16, 32, 48, 100])
+        klen = rng.choice([16, 32, 48, 100, 255])
         keyA, deA = extract_enc(ctx, M, idA, R.HID_EXCH)
         keyB, deB = extract_enc(ctx, M, idB, R.HID_EXCH)
         ia, ib = ctx.inbuf(idA), ctx.inbuf(idB)
@@ -1864,6 +1953,7 @@ def u_exch(ctx, u):
                 chk(ctx, skB.raw() == skb and s1 == sb and s2 == sa, 'exch:responder-key-differs-from-model', rB=hx(v), **d)
                 break
         ctx.stat('info_exch_rB_source_' + str(rb_src))
+        last_src = rb_src or last_src
         draws_a = [UL(logA, i) for i in range(0, max(0, len(logA) - 31), 32)]
         ctx.stat('info_exch_rA_is_test_vector_constant' if ra == _EXCH_RA_CONST else
                  'info_exch_rA_from_entropy' if ra in draws_a else 'info_exch_rA_source_unknown')
@@ -1871,6 +1961,8 @@ def u_exch(ctx, u):
         seen_rA.add(ra)
         for x in (keyA, keyB, ia, ib, RA, RB, rA, skA, skB):
             x.free()
+    if last_src:
+        _exch_retry_case(ctx, M, last_src, rng)
     ctx.stat_max('info_exch_distinct_rA_values', len(seen_rA))
     ctx.stat('info_exch_confirmation_hashes_SB_SA_not_produced_by_library')
     ctx.sample({'kind': 'exch', 'n': u['n'], 'distinct_rA': len(seen_rA)})
